@@ -75,10 +75,11 @@ def run(ctx, model_ok):
                             "boundary sum of the log r_i terms is not analysed) (proved elsewhere: Dipole, Sphere, segment, Cuboid, "
                             "Triangle, Tetrahedron, Circle, the whole ported BHJM_magnet_cylinder with cel / cel0 as opaque functions, and the TriangularMesh inside test / "
                             "bounding-box pre-filter / is_facet_inwards, tied by the trimesh-inside stream)",
-                            "Cylinder: Model/Cylinder.lean calls the single-row path of `cel` (cel0); the batch path celv and the dispatcher ARE modelled separately (Model/Celv.lean, celbatch rows of this "
-                            "stream, bit-identical) and shown to agree with cel0 entry by entry except for moduli with 0 < |1 - |kc|| <= 1e-6 (Props/C06 celv_eq_cel0_partial, celv_ne_cel0_in_band); "
-                            "cel / cel0 / celv take only dimensionless arguments (ratios of lengths), so the unit theorems, which treat cel as an opaque function of its arguments, are not affected by "
-                            "which path is taken; scipy ellipk/ellipe modelled through cel0 (validated by the kern stream)",
+                            "Cylinder: proved for the one-row model with cel0 opaque (cylinder_scale_invariant) AND for the batch as coded with the real dispatcher cel — cel0 per entry below 10 "
+                            "entries of a sub-batch, the masked array routine celv from 10 on (cylinder_batch_scale_invariant over Model/CylinderBatch.lean, cylbatch rows of this stream: the rows' "
+                            "dimensionless coordinates, hence the masks, the sub-batches, their sizes, the path cel takes and all its arguments are the same numbers at every scale); "
+                            "scipy ellipk/ellipe modelled through cel0 (validated by the kern stream); exact arithmetic only (in float the three quotients by r0 round differently at scales that "
+                            "are not powers of two)",
                             "float loss of absolute offsets at extreme scales is outside exact real arithmetic"]
 
 
